@@ -30,6 +30,7 @@ def is_lock(obj):
 
 class FuncInfo(object):
     def __init__(self, func, cls=None):
+        func = inspect.unwrap(func)          # @contextmanager / functools.wraps: the function that was written, with ITS globals
         self.func = func
         self.cls = cls
         self.qual = func.__module__ + '.' + func.__qualname__
@@ -53,6 +54,23 @@ def _names_assigned(tree):
         elif isinstance(n, ast.arg):
             out.add(n.arg)
     return out
+
+
+def _lock_call(st, fi, what):
+    """statement `<module-level lock>.acquire()` / `.release()`"""
+    if not isinstance(st, ast.Expr) or not isinstance(st.value, ast.Call):
+        return False
+    f = st.value.func
+    return isinstance(f, ast.Attribute) and f.attr == what and isinstance(f.value, ast.Name) and f.value.id in fi.g and is_lock(fi.g[f.value.id])
+
+
+def _released_in_finally(blk, acq, fi):
+    """is the statement after the acquire a try whose finally releases the lock?"""
+    i = blk.index(acq)
+    for st in blk[i + 1:i + 2]:
+        if isinstance(st, ast.Try) and any(_lock_call(x, fi, 'release') for x in st.finalbody):
+            return True
+    return False
 
 
 class Analyzer(object):
@@ -97,10 +115,15 @@ class Analyzer(object):
         return uniq
 
     # ------------------------------------------------------------------------------------------------------------
-    def analyze(self, func, cls=None, shared_self=False, shared_params=frozenset(), locked=False, chain=()):
-        """shared_params: frozenset of (parameter name, location key of the module-level object it is bound to)"""
+    def analyze(self, func, cls=None, shared_self=False, shared_params=frozenset(), locked=False, chain=(), fparams=frozenset()):
+        """shared_params: frozenset of (parameter name, location key of the module-level object it is bound to);
+        fparams: frozenset of (parameter name, (function, class, receiver shared?)) - functions / bound methods passed in by a caller"""
         pmap = dict(shared_params)
-        key = (func, shared_self, shared_params, locked)
+        self._fmap = {}
+        for pn, tgt in fparams:
+            self._fmap.setdefault(pn, []).append(tgt)
+        fmap = self._fmap
+        key = (func, shared_self, shared_params, locked, fparams)
         if key in self.visited or len(chain) > 12:
             return
         self.visited.add(key)
@@ -184,10 +207,36 @@ class Analyzer(object):
                     e = it.context_expr
                     if isinstance(e, ast.Name) and e.id in fi.g and is_lock(fi.g[e.id]):
                         lk = True
+                    else:
+                        for x in walk(e, in_lock):          # `with helper():` calls helper (and whatever it writes)
+                            yield x
                 for b in node.body:
                     for x in walk(b, lk):
                         yield x
                 return
+            # a block of statements: the region after `<lock>.acquire()` up to `<lock>.release()` in the same block is held
+            for fld in ('body', 'orelse', 'finalbody'):
+                blk = getattr(node, fld, None)
+                if isinstance(blk, list) and blk and isinstance(blk[0], ast.stmt) and any(_lock_call(st, fi, 'acquire') for st in blk):
+                    yield node, in_lock
+                    held = in_lock
+                    for st in blk:
+                        if _lock_call(st, fi, 'acquire'):
+                            held = True
+                            acquires.append((st, _released_in_finally(blk, st, fi)))
+                            continue
+                        if _lock_call(st, fi, 'release'):
+                            held = in_lock
+                            continue
+                        for x in walk(st, held):
+                            yield x
+                    for fld2 in ('body', 'orelse', 'finalbody', 'handlers'):
+                        if fld2 != fld:
+                            for ch in (getattr(node, fld2, None) or []):
+                                if isinstance(ch, ast.AST):
+                                    for x in walk(ch, in_lock):
+                                        yield x
+                    return
             yield node, in_lock
             for ch in ast.iter_child_nodes(node):
                 if isinstance(ch, (ast.FunctionDef, ast.Lambda, ast.ClassDef)):
@@ -195,11 +244,18 @@ class Analyzer(object):
                 for x in walk(ch, in_lock):
                     yield x
 
+        acquires = []    # (statement, released on every path?)
         writes = []      # (location key, node, in_lock, kind, value node or None)
         calls = []       # (call node, in_lock)
         reads = []       # (location key, node, in_lock): item reads / membership tests of module-level containers
-        for stmt in fi.tree.body:
+        class _Body(ast.AST):
+            _fields = ('body',)
+        top = _Body()
+        top.body = fi.tree.body
+        for stmt in [top]:
             for node, lk in walk(stmt, locked):
+                if node is top:
+                    continue
                 if isinstance(node, (ast.Assign, ast.AugAssign, ast.AnnAssign)):
                     targets = node.targets if isinstance(node, ast.Assign) else [node.target]
                     for t in targets:
@@ -245,11 +301,16 @@ class Analyzer(object):
                     ok, why = True, 'publish-after-complete'
                 self.sites.append(dict(function=fi.qual, file=fi.file, line=fi.line(node), location=':'.join(str(x) for x in loc), ok=ok, why=why,
                                        kind=kind, chain=list(chain)))
+        for st, safe in acquires:
+            self.sites.append(dict(function=fi.qual, file=fi.file, line=fi.line(st), location='lock:acquire', ok=bool(safe),
+                                   why='released in a finally clause' if safe else 'a lock taken with .acquire() is not released in a finally clause: '
+                                   'an exception raised while it is held leaves it held, and every later caller in another thread blocks',
+                                   kind='lock acquire', chain=list(chain)))
         for loc, node, lk in reads:
             self.reads.append(dict(function=fi.qual, file=fi.file, line=fi.line(node), location=':'.join(str(x) for x in loc), in_lock=lk))
         # calls
         for node, lk in calls:
-            self._call(fi, node, lk, locals_, fresh, shared_self, pmap, is_module_obj, chain)
+            self._call(fi, node, lk, locals_, fresh, shared_self, pmap, is_module_obj, chain, fmap)
 
     def _target(self, fi, t, node, lk, declared_global, is_module_obj, shared_self, shared_params, writes):
         val = getattr(node, 'value', None)
@@ -267,6 +328,16 @@ class Analyzer(object):
                     if shared_self:
                         writes.append((('self', fi.cls.__name__ if fi.cls else '?', getattr(t, 'attr', '[]')), node, lk,
                                        'stores %s on a receiver that is a module-level (shared) instance' % what, val if isinstance(t, ast.Attribute) and t.value is base else None))
+                elif nm not in shared_params and isinstance(fi.g.get(nm), types.ModuleType) and nm not in _names_assigned(fi.tree):
+                    # monkey-patching: an attribute of an imported module is process-wide state
+                    mod = fi.g[nm]
+                    path = []
+                    e = t
+                    while isinstance(e, ast.Attribute):
+                        path.append(e.attr)
+                        e = e.value
+                    writes.append((('module', getattr(mod, '__name__', nm), '.'.join(reversed(path))), node, lk,
+                                   'stores an attribute of the imported module %s (process-wide state)' % getattr(mod, '__name__', nm), val))
                 elif nm in declared_global or is_module_obj(nm):
                     if isinstance(t, ast.Subscript) and t.value is base and self._complete_key_memo(fi, t, node):
                         # result memo keyed on EVERY parameter, unmodified: the answer still depends on the arguments only,
@@ -331,9 +402,11 @@ class Analyzer(object):
             return True
         return False
 
-    def _call(self, fi, node, lk, locals_, fresh, shared_self, shared_params, is_module_obj, chain):
+    def _call(self, fi, node, lk, locals_, fresh, shared_self, shared_params, is_module_obj, chain, fmap=None):
         f = node.func
         targets = []       # (function, cls, shared_self_for_callee)
+        if isinstance(f, ast.Name) and fmap and f.id in fmap:
+            targets.extend(fmap[f.id])          # a function / bound method handed in by the caller
         if isinstance(f, ast.Name):
             obj = fi.g.get(f.id) if f.id not in locals_ else None
             if isinstance(obj, types.FunctionType) and self.in_pkg(obj):
@@ -391,8 +464,32 @@ class Analyzer(object):
             for kw in node.keywords:
                 if kw.arg and isinstance(kw.value, ast.Name) and lockey(kw.value.id):
                     sp.add((kw.arg, lockey(kw.value.id)))
+            # function-valued arguments: package functions by name, bound methods `obj.m` (every method of that name; the receiver
+            # counts as shared unless it is a fresh local)
+            fp = set()
+            def ftargets(a):
+                out = []
+                if isinstance(a, ast.Name):
+                    o = fi.g.get(a.id) if a.id not in locals_ else None
+                    if isinstance(o, types.FunctionType) and self.in_pkg(o):
+                        out.append((o, None, False))
+                    if fmap and a.id in fmap:
+                        out.extend(fmap[a.id])
+                elif isinstance(a, ast.Attribute):
+                    rsh = not (isinstance(a.value, ast.Name) and a.value.id in locals_ and fresh.get(a.value.id, False))
+                    for fn2, c2 in self.methods_named(a.attr):
+                        out.append((fn2, c2, rsh))
+                return out
+            for i, a in enumerate(node.args):
+                if i + offs < len(ci.params):
+                    for tg in ftargets(a):
+                        fp.add((ci.params[i + offs], tg))
+            for kw in node.keywords:
+                if kw.arg:
+                    for tg in ftargets(kw.value):
+                        fp.add((kw.arg, tg))
             self.edges.append((fi.qual, ci.qual))
-            self.analyze(fn, c, sh, frozenset(sp), lk, chain)
+            self.analyze(fn, c, sh, frozenset(sp), lk, chain, frozenset(fp))
 
 
 def verdicts(an):
